@@ -47,6 +47,9 @@ type Summary struct {
 	cellShrink map[int]bool // param index -> callee never grows *param (candidate)
 }
 
+// guardedFact: fact holds wherever guard does (both about the same call result).
+type guardedFact struct{ guard, fact Lin }
+
 type Fn struct {
 	e       *Engine
 	f       *ssa.Function
@@ -54,9 +57,11 @@ type Fn struct {
 	edgeDQ  map[*ssa.BasicBlock][]Lin
 	inv     map[*ssa.BasicBlock][]Lin
 	global  []Lin
-	callF   map[ssa.Instruction][]Lin // postconditions of a call / tuple component, emitted where the instruction is
-	noSplit *ssa.Call                 // call whose precondition is being proved: its own return cases must not be used
-	pre     []Lin                     // assumed preconditions (proved at every call site); not exported to callers
+	callF   map[ssa.Instruction][]Lin         // postconditions of a call / tuple component, emitted where the instruction is
+	guardF  map[ssa.Instruction][]guardedFact // postconditions that hold only under a guard on the result (a search that found something)
+	pendG   []guardedFact                     // guarded postconditions produced by the callFacts call in progress
+	noSplit *ssa.Call                         // call whose precondition is being proved: its own return cases must not be used
+	pre     []Lin                             // assumed preconditions (proved at every call site); not exported to callers
 	seen    map[interface{}]bool
 	loadOf  map[*ssa.UnOp]ssa.Value    // canonical representative
 	cellInv map[*ssa.Alloc][]ssa.Value // alloc -> params P with len(*alloc) <= len(P)
@@ -111,7 +116,7 @@ func calleeName(c *ssa.Call) string {
 }
 
 func newFn(e *Engine, f *ssa.Function) *Fn {
-	s := &Fn{e: e, f: f, seen: map[interface{}]bool{}, loadOf: map[*ssa.UnOp]ssa.Value{}, inv: map[*ssa.BasicBlock][]Lin{}, callF: map[ssa.Instruction][]Lin{}}
+	s := &Fn{e: e, f: f, seen: map[interface{}]bool{}, loadOf: map[*ssa.UnOp]ssa.Value{}, inv: map[*ssa.BasicBlock][]Lin{}, callF: map[ssa.Instruction][]Lin{}, guardF: map[ssa.Instruction][]guardedFact{}}
 	s.computeReach()
 	s.canonLoads()
 	s.buildEdgeFacts()
